@@ -205,4 +205,101 @@ example : Py.parse_phoenix_line "tName = \"\"a#b\"\" # c".toList ['"', '"'] = PO
 example : Py.parse_phoenix_line "   # only a comment".toList ['"'] = POut.none := by rfl
 example : Py.parse_phoenix_line "no equals sign".toList ['"'] = POut.parseError := by rfl
 
+/-! ### `parse_phoenix_prot` -/
+
+/-- `xs[1:-1]` drops the first and the last element -/
+theorem pySliceL_inner {β : Type} (l : List β) : pySliceL (1 : Int) (-1 : Int) l = dropLast (l.drop 1) := by
+  unfold pySliceL pySliceBound dropLast
+  have h1 : ((1 : Int) < 0) = False := by simp
+  have h2 : ((-1 : Int) < 0) = True := by simp
+  simp only [h1, h2, if_false, if_true]
+  have h3 : (-(-1 : Int)).toNat = 1 := by decide
+  have h4 : (1 : Int).toNat = 1 := by decide
+  rw [h3, h4]
+  by_cases hl : 1 ≤ l.length
+  · simp only [hl, if_true]
+    rw [List.length_drop, List.drop_take, Nat.min_eq_left hl]
+  · have : l = [] := by
+      cases l with
+      | nil => rfl
+      | cons a t => simp at hl
+    subst this; simp
+
+/-- the loop of `parse_phoenix_prot` from an accumulated dictionary, as the model's `protLoop`; the loop body `f` is taken from
+    the translated function and only has to act as the three outcomes of `parseLine` say -/
+theorem prot_loop (delim : Str)
+    (f : Str → Option ProtOut × List (Str × PVal) → Id (ForInStep (Option ProtOut × List (Str × PVal))))
+    (hf : ∀ line r, f line r =
+      match parseLine delim line with
+      | .parseError => pure (ForInStep.done (some ProtOut.parseError, r.2))
+      | .none => pure (ForInStep.yield (none, r.2))
+      | .pair k v => pure (ForInStep.yield (none, setKey r.2 k v)))
+    (lines : List Str) :
+    ∀ acc : List (Str × PVal),
+      (do
+        let r ← forIn lines ((none : Option ProtOut), acc) f
+        match r.1 with
+        | some a => pure a
+        | none => pure (ProtOut.ok r.2) : Id ProtOut) = protLoop delim lines acc := by
+  induction lines with
+  | nil => intro acc; rfl
+  | cons l ls ih =>
+    intro acc
+    rw [List.forIn_cons, hf]
+    unfold protLoop
+    cases hp : parseLine delim l with
+    | parseError => rfl
+    | none => exact ih acc
+    | pair k v => exact ih (setKey acc k v)
+
+theorem prot_body (delim : Str) (hd : delim ≠ []) (line : Str) (r : Option ProtOut × List (Str × PVal)) :
+    (if (Py.parse_phoenix_line line delim == POut.parseError) = true then
+        (pure (ForInStep.done (some ProtOut.parseError, r.snd)) : Id _)
+      else
+        match Py.parse_phoenix_line line delim with
+        | POut.pair k_ v_ => pure (ForInStep.yield (none, setKey r.snd k_ v_))
+        | x => pure (ForInStep.yield (none, r.snd))) =
+      match parseLine delim line with
+      | .parseError => pure (ForInStep.done (some ProtOut.parseError, r.2))
+      | .none => pure (ForInStep.yield (none, r.2))
+      | .pair k v => pure (ForInStep.yield (none, setKey r.2 k v)) := by
+  rw [parse_phoenix_line_eq delim line hd]
+  cases parseLine delim line <;> rfl
+
+/-- **`parse_phoenix_prot` as written in extract.py is the model's `parseProt`** -/
+theorem parse_phoenix_prot_eq (key text : Str) : Py.parse_phoenix_prot key text = parseProt key text := by
+  unfold Py.parse_phoenix_prot parseProt
+  by_cases h1 : key = "MrPhoenixProtocol".toList
+  · have e1 : (key == "MrPhoenixProtocol".toList) = true := by rw [h1]; rfl
+    simp only [e1, if_pos h1, if_true, pySliceL_inner]
+    refine Eq.trans ?_ <| prot_loop ("\"\"").toList _ (fun line r => prot_body _ (by decide) line r) (dropLast (List.drop 1 (splitLines (pySlice (findI "### ASCCONV BEGIN ".toList text) (findI "### ASCCONV END ###".toList text) text)))) []
+    unfold Id.run
+    congr 1
+    funext r
+    obtain ⟨a, b⟩ := r
+    cases a <;> rfl
+  · have e1 : (key == "MrPhoenixProtocol".toList) = false := by
+      cases h : (key == "MrPhoenixProtocol".toList) with
+      | false => rfl
+      | true => exact absurd (eq_of_beq h) h1
+    by_cases h2 : key = "MrProtocol".toList
+    · have e2 : (key == "MrProtocol".toList) = true := by rw [h2]; rfl
+      simp only [e1, e2, if_neg h1, if_pos h2, if_true, if_false, Bool.false_eq_true, pySliceL_inner]
+      refine Eq.trans ?_ <| prot_loop ['"'] _ (fun line r => prot_body _ (by decide) line r) (dropLast (List.drop 1 (splitLines (pySlice (findI "### ASCCONV BEGIN ".toList text) (findI "### ASCCONV END ###".toList text) text)))) []
+      unfold Id.run
+      congr 1
+      funext r
+      obtain ⟨a, b⟩ := r
+      cases a <;> rfl
+    · have e2 : (key == "MrProtocol".toList) = false := by
+        cases h : (key == "MrProtocol".toList) with
+        | false => rfl
+        | true => exact absurd (eq_of_beq h) h2
+      simp only [e1, e2, if_neg h1, if_neg h2, if_false, Bool.false_eq_true]
+      rfl
+
+example : Py.parse_phoenix_prot "MrProtocol".toList "x\n### ASCCONV BEGIN ###\na = 1\nb = \"q\"\na = 2\n### ASCCONV END ###".toList
+    = ProtOut.ok [("a".toList, PVal.int 2), ("b".toList, PVal.str "q".toList)] := by rfl
+example : Py.parse_phoenix_prot "Other".toList [] = ProtOut.valueError := by rfl
+
 end Src
